@@ -130,6 +130,8 @@ pub fn search(board: &Board, tf: &ThreeFold, k: u64, positional: bool) -> Outcom
     e.max_depth = SENTINEL;
     let (mv, score) = op(Op::Search, || e.search(board, tf, t));
     let out = Outcome { mv: mv.map(sut::unmv), score, completed: if e.max_depth == SENTINEL { None } else { Some(e.max_depth) }, polls: polls.get() };
+    // the caller prints what it got (chess-cli does, with `{:?}`)
+    let _ = op(Op::Print, || format!("{score:?} {mv:?}").len());
     if keep {
         SHARED.with(|c| *c.borrow_mut() = Some(e));
     }
